@@ -188,13 +188,13 @@ theorem toUsizeI_nat (a : Nat) (ha : a < 18446744073709551616) : toUsizeI (a : I
   rw [if_pos ha]
 
 /-- a label with a bank that has an output offset is listed with its offset in the file behind the 16-byte
-    header: `(address − start) · unit / 8 + outp/8 − 16`, addresses counting units of `unit` bits (finding F44,
+    header: `((address − start) · unit + outp) / 8 − 16` (in bits first: a bank need not start on a byte), addresses counting units of `unit` bits (finding F44,
     repaired: the unit was left out, so banks with `#bits 16` got half their offsets) -/
 theorem mesen_row (name : List Char) (a a0 u : Nat) (o : Nat) (ha : a < 18446744073709551616) (ha0 : a0 < 18446744073709551616)
-    (hge : a0 ≤ a) (hh : 16 ≤ (a - a0) * u / 8 + o / 8) :
+    (hge : a0 ≤ a) (hh : 16 ≤ ((a - a0) * u + o) / 8) :
     mesenRow ⟨name, false, a, some (a0, u, some o)⟩ =
-      "P:".toList ++ hexLow ((a - a0) * u / 8 + o / 8 - 16) ++ ':' :: (name.map fun c => if c == '.' then '_' else c) ++ ['\n'] := by
-  have hc : (decide (a0 ≤ a) && decide (16 ≤ (a - a0) * u / 8 + o / 8)) = true := by simp [hge, hh]
+      "P:".toList ++ hexLow (((a - a0) * u + o) / 8 - 16) ++ ':' :: (name.map fun c => if c == '.' then '_' else c) ++ ['\n'] := by
+  have hc : (decide (a0 ≤ a) && decide (16 ≤ ((a - a0) * u + o) / 8)) = true := by simp [hge, hh]
   simp only [mesenRow, Bool.false_eq_true, if_false, toUsizeI_nat a ha, toUsizeI_nat a0 ha0, hc, if_true]
 
 /-- with byte-sized address units this is `address − start + outp/8 − 16` -/
@@ -202,16 +202,16 @@ theorem mesen_row_bytes (name : List Char) (a a0 : Nat) (o : Nat) (ha : a < 1844
     (hge : a0 ≤ a) (hh : 16 ≤ a - a0 + o / 8) :
     mesenRow ⟨name, false, a, some (a0, 8, some o)⟩ =
       "P:".toList ++ hexLow (a - a0 + o / 8 - 16) ++ ':' :: (name.map fun c => if c == '.' then '_' else c) ++ ['\n'] := by
-  have e : (a - a0) * 8 / 8 = a - a0 := Nat.mul_div_cancel _ (by decide)
+  have e : ((a - a0) * 8 + o) / 8 = a - a0 + o / 8 := by omega
   have := mesen_row name a a0 8 o ha ha0 hge (by rw [e]; exact hh)
   rw [e] at this
   exact this
 
 /-- …and a label inside the 16-byte header is left out (no underflow) -/
 theorem mesen_header_label_omitted (name : List Char) (a a0 u : Nat) (o : Nat) (ha : a < 18446744073709551616)
-    (ha0 : a0 < 18446744073709551616) (hh : (a - a0) * u / 8 + o / 8 < 16) : mesenRow ⟨name, false, a, some (a0, u, some o)⟩ = [] := by
-  have hc : (decide (a0 ≤ a) && decide (16 ≤ (a - a0) * u / 8 + o / 8)) = false := by
-    have : ¬ 16 ≤ (a - a0) * u / 8 + o / 8 := by omega
+    (ha0 : a0 < 18446744073709551616) (hh : ((a - a0) * u + o) / 8 < 16) : mesenRow ⟨name, false, a, some (a0, u, some o)⟩ = [] := by
+  have hc : (decide (a0 ≤ a) && decide (16 ≤ ((a - a0) * u + o) / 8)) = false := by
+    have : ¬ 16 ≤ ((a - a0) * u + o) / 8 := by omega
     simp [this]
   simp only [mesenRow, Bool.false_eq_true, if_false, toUsizeI_nat a ha, toUsizeI_nat a0 ha0, hc]
 
